@@ -2,6 +2,7 @@ package main
 
 import (
 	"fmt"
+	"go/token"
 	"go/types"
 	"strings"
 
@@ -509,7 +510,31 @@ func (a *An) tlvLoopComplete(rule string) {
 		a.R.Check(ok, rule, "processTLVs|exit#"+string(rune('0'+n)), "the TLV loop ends only when all TLVs were handled or a handler failed", a.C.InstrPos(ex.From.Instrs[len(ex.From.Instrs)-1]),
 			"the loop over the TLVs of a message can be left early ("+why+"): TLVs after that point (e.g. a disconnect) are never acted upon")
 	}
-	a.R.Floor(rule, 2)
+	// the TLVs are handled in the order in which they stand in the message: the loop runs over the parameter itself,
+	// indexed by the loop counter (an abort in front of a new first message must be seen first)
+	inOrder := false
+	what := ""
+	for _, b := range fn.Blocks {
+		if !l.Body[b] {
+			continue
+		}
+		for _, in := range b.Instrs {
+			ia, ok := in.(*ssa.IndexAddr)
+			if !ok {
+				continue
+			}
+			what = a.C.Term(ia.X)
+			if p, isP := ia.X.(*ssa.Parameter); isP && paramIndex(p) == 1 {
+				if bo, isBO := ia.Index.(*ssa.BinOp); isBO && bo.Op == token.ADD {
+					if _, isPhi := bo.X.(*ssa.Phi); isPhi && a.C.Term(bo.Y) == "1" {
+						inOrder = true
+					}
+				}
+			}
+		}
+	}
+	a.R.Check(inOrder, rule, "processTLVs|wire-order", "the loop takes the TLVs from the message's own list, first to last", a.C.Pos(fn.Pos()), "the loop ranges over "+what)
+	a.R.Floor(rule, 3)
 }
 
 // headerIsReceived: the header bytes that enter the MAC are the received bytes themselves: each version's
